@@ -1,7 +1,7 @@
 (* C08 — the declarative notions the theorems are stated with (definitions only). *)
 From Coq Require Import List Bool Arith.
 From Coq.Strings Require Import Byte.
-From GI Require Import Lib.Bytes Diff.Diff.
+From GI Require Import Lib.Bytes Gen.DiffConsts Diff.Diff.
 Import ListNotations.
 
 (* the sub-list l[a:b] *)
@@ -31,6 +31,40 @@ Fixpoint wf_from (x y : list line) (px py : nat) (hs : list hunk) : Prop :=
   end.
 
 Definition hunks_wf (x y : list line) (hs : list hunk) : Prop := wf_from x y 0 0 hs.
+
+(* ---------------------------------------------------------------- the context rule *)
+
+Definition is_ctx (tl : tag * line) : bool := match fst tl with TCtx => true | _ => false end.
+
+(* lengths of the maximal runs of context lines of a chunk: the run before the first changed
+   line, the runs between changed lines (0 between adjacent ones), the run after the last.
+   A chunk with k changed lines has k+1 runs. *)
+Fixpoint runs_from (cur : nat) (b : list (tag * line)) : list nat :=
+  match b with
+  | [] => [cur]
+  | tl :: b' => if is_ctx tl then runs_from (S cur) b' else cur :: runs_from 0 b'
+  end.
+Definition runs (b : list (tag * line)) : list nat := runs_from 0 b.
+
+(* a run of common lines inside a hunk was too short to end the hunk *)
+Definition inner_ok (r : nat) : Prop := r = 0 \/ r < 2 * ctxC.
+
+(* The rule Diff implements for one hunk at 0-based positions (p,q):
+   - it has at least one changed line (at least two runs);
+   - at most ctxC context lines lead, exactly ctxC unless the hunk starts at the top of both files;
+   - at most ctxC context lines trail, exactly ctxC unless the hunk ends at the end of both files;
+   - every run of common lines in between is shorter than 2*ctxC (so two changes whose common
+     run is shorter are in one hunk; with [hunks_wf] and the exact lead/trail counts, two
+     consecutive hunks are separated by a common run of at least 2*ctxC lines). *)
+Definition hunk_ctx_ok (x y : list line) (h : hunk) : Prop :=
+  exists p q lead inners trail,
+    start_pos (sx h) (cx h) = Some p /\ start_pos (sy h) (cy h) = Some q /\
+    runs (body h) = lead :: inners ++ [trail] /\
+    lead <= ctxC /\ (lead = ctxC \/ (p = 0 /\ q = 0)) /\
+    Forall inner_ok inners /\
+    trail <= ctxC /\ (trail = ctxC \/ (p + cx h = length x /\ q + cy h = length y)).
+
+Definition has_change (b : list (tag * line)) : bool := existsb (fun tl => negb (is_ctx tl)) b.
 
 (* strict order on pairs, in both coordinates *)
 Definition lt2 (a b : nat * nat) : Prop := fst a < fst b /\ snd a < snd b.
